@@ -235,6 +235,9 @@ def check(prop, tier, batch_seed, n_runs, wall_cap, workers=16):
                 for v in res['violations']:
                     if v['property'] != prop:
                         agg['cross']['%s:%s' % (v['property'], v['signature'])] += 1
+                        if os.environ.get('VERIF_SURVEY') and known_match(known, v['property'], v) is None:
+                            agg.setdefault('survey', {}).setdefault('CROSS %s:%s' % (v['property'], v['signature']),
+                                                                    []).append(res['seed'])
                         continue
                     k = known_match(known, prop, v)
                     if k is not None:
